@@ -560,6 +560,7 @@ fn main() {
         let _ = writeln!(out, "use {u};");
     }
     let mut sections: Vec<serde_json::Value> = vec![];
+    let mut lemma_refs: Vec<String> = vec![];
     for p in unit.prelude.iter().filter(|_| !plain) {
         let path = format!("{verif_root}/prelude/{p}");
         let t = std::fs::read_to_string(&path).unwrap_or_else(|e| die("malformed-unit", &format!("{path}: {e}")));
@@ -572,15 +573,33 @@ fn main() {
         sections.push(json!({"kind":"prelude","file":p,"line_start":l0,"line_end":out.lines().count()}));
     }
     for s in unit.spec.iter().filter(|_| !plain) {
+        // `UNIT::file`: lemmas proved in UNIT -- their bodies are not re-checked here
+        let (proved_in, s) = match s.split_once("::") {
+            Some((u, f)) => (Some(u.to_string()), f.to_string()),
+            None => (None, s.clone()),
+        };
+        let s = &s;
         let path = unit_dir.join(s);
-        let t = std::fs::read_to_string(&path).unwrap_or_else(|e| die("malformed-unit", &format!("{}: {e}", path.display())));
+        let mut t = std::fs::read_to_string(&path).unwrap_or_else(|e| die("malformed-unit", &format!("{}: {e}", path.display())));
+        if let Some(u) = &proved_in {
+            let mut t2 = String::new();
+            for line in t.lines() {
+                if line.starts_with("proof fn ") || line.starts_with("pub proof fn ") {
+                    t2.push_str(&format!("#[verifier::external_body] /*@LEMMA-OF {u}*/\n"));
+                }
+                t2.push_str(line);
+                t2.push('\n');
+            }
+            t = t2;
+            lemma_refs.push(u.clone());
+        }
         let l0 = out.lines().count() + 1;
         let _ = writeln!(out, "// ---- spec {s} (spec functions and lemmas; no complgen code) ----");
         out.push_str(&t);
         if !t.ends_with('\n') {
             out.push('\n');
         }
-        sections.push(json!({"kind":"spec","file":s,"line_start":l0,"line_end":out.lines().count()}));
+        sections.push(json!({"kind":"spec","file":s,"line_start":l0,"line_end":out.lines().count(),"lemmas_of":proved_in}));
     }
     if !plain {
         out.push_str("verus! {\n");
@@ -664,6 +683,7 @@ fn main() {
         "obligations": obls,
         "canaries": unit.canaries.iter().map(|c| json!({"name": c.name, "expect": c.expect, "from": c.from, "to": c.to, "nth": c.nth})).collect::<Vec<_>>(),
         "properties": unit.properties,
+        "lemma_refs": lemma_refs,
     });
     std::fs::write(format!("{out_prefix}.rs"), &out).unwrap();
     std::fs::write(format!("{out_prefix}.map.json"), serde_json::to_string_pretty(&map).unwrap()).unwrap();
